@@ -2,6 +2,9 @@ import LoraVerif.Props.C13
 import LoraVerif.Props.TieA.C13
 import LoraVerif.Props.TieA.C13Sx127
 import LoraVerif.Props.TieA.C13Sx127Mod
+import LoraVerif.Props.TieA.C13E
+import LoraVerif.Props.TieA.C13ECal
+import LoraVerif.Props.TieA.C13ECh
 /-!
 # C13 — the module `./check C13` builds: the property theorems (`Props/C13.lean`: the hand model of
 the drivers against Semtech's reference) together with the tie-A equalities between the hand model's
